@@ -257,6 +257,13 @@ def random_network(rng, quick=True, force=None):
                 if kind[ja] == "junction" and others:
                     jb = rng.choice(others)
                     links.append(valve(ja, jb) if rng.random() < 0.5 else valve(jb, ja)); feat["valve_tank"] = True
+    # a volume curve on some tanks (level -> volume, wider towards the top): only the level update uses it, the tank's reported
+    # demand must still be its net inflow
+    for nd in nodes:
+        if nd["type"] == "tank" and rng.random() < 0.3:
+            a0 = math.pi * nd["diameter"] ** 2 / 4.0
+            top = nd["max_level"] + 2.0
+            nd["vol_curve"] = [(0.0, 0.0), (round(top / 2, 2), round(a0 * top / 2 * 0.8, 2)), (round(top, 2), round(a0 * top * 1.1, 2))]
     # leaks
     for nd in nodes:
         if nd["type"] in ("junction", "tank") and rng.random() < (0.12 if nd["type"] == "junction" else 0.3):
@@ -316,8 +323,12 @@ def build_wn(wntr, spec):
                 j.required_pressure = nd["required_pressure"]
                 j.minimum_pressure = nd["minimum_pressure"]
         elif nd["type"] == "tank":
+            vc = None
+            if nd.get("vol_curve"):
+                vc = "vc_" + nd["name"]
+                wn.add_curve(vc, "VOLUME", [tuple(p) for p in nd["vol_curve"]])
             wn.add_tank(nd["name"], elevation=nd["elevation"], init_level=nd["init_level"], min_level=nd["min_level"],
-                        max_level=nd["max_level"], diameter=nd["diameter"])
+                        max_level=nd["max_level"], diameter=nd["diameter"], vol_curve=vc)
         else:
             wn.add_reservoir(nd["name"], base_head=nd["head"], head_pattern=nd.get("head_pattern"))
     for l in spec["links"]:
